@@ -14,9 +14,10 @@ ALL = [f'C{i:02d}' for i in range(1, 21)]
 def main():
     checks = []
     na = []
+    claimed = set(open(os.path.join(HERE, 'tools', 'claimed.txt')).read().split())
     for pid in ALL:
         path = os.path.join(HERE, 'vt', 'checks', pid.lower() + '.py')
-        if not os.path.exists(path):
+        if not os.path.exists(path) or pid not in claimed:
             na.append({'property_id': pid, 'reason': 'check not built yet (see DESIGN.md section 3 for the planned monitor)'})
             continue
         mod = importlib.import_module(f'vt.checks.{pid.lower()}')
